@@ -188,7 +188,7 @@ GROUPS.append(Group('F3', 'apply_formatting changes exactly the range with the d
                     ['AnsiString.apply_formatting', '_AnsiSettingPoint.insert_settings', '_AnsiSettingPoint._scrub_ansi_settings',
                      'AnsiString.ansi_settings_at', 'AnsiSetting.__init__', 'AnsiSetting.__eq__'], f3_items, f3_task,
                     bounds='change points N<=3, objects<=2/3, 0-2 new settings (as AnsiSetting objects), start/end symbolic '
-                    'or omitted, topmost symbolic', assumes=['SL']))
+                    'or omitted, topmost symbolic', assumes=['SL', 'F2']))
 
 
 # ============================================================================================= M2 (+M1)
@@ -214,6 +214,11 @@ def m2_items(tier):
                 if tier == 'quick' and bk != '11' and len(sh) > 2:
                     continue
                 out.append([sh, sel, bk])
+    if tier == 'quick':
+        # a few three-object tables (nested ranges that all run to the end): one selected setting, both bounds
+        for sh in shapes.table_shapes(3, 3, 2, 2, reuse=False, ordered_rem_only=True):
+            if shapes.shape_nobj(sh) == 3 and len(sh) == 3:
+                out.append([sh, 'one', '11'])
     return out
 
 
@@ -389,3 +394,54 @@ GROUPS.append(Group('G2e', '__getitem__ on texts containing ESC, [ and m (no re-
                                    'ParsedAnsiControlSequenceString.__init__'], g2e_items, g2e_task,
                     bounds='text length L<=3/5 over the characters ESC [ m 1 x (symbolic), one setting over the whole '
                     'text, all concrete (start, stop) pairs'))
+
+
+# ============================================================================================= F2
+CL_F2 = [Clause('results-are-new-objects', 'post_scrub_unique')]
+CL_F2T = [Clause('results-are-new-objects', 'post_scrub_unique'), Clause('flattened-in-order', 'post_scrub_flattens')]
+F2_FORMS = ['one', 'list2', 'nested', 'tuple-nested', 'deep', 'enum-bold', 'enum-ul-red', 'name', 'enum-in-list',
+            'name-in-tuple']
+
+
+def f2_items(tier):
+    return [[f] for f in F2_FORMS]
+
+
+def f2_task(envr, item):
+    form = item[0]
+    I = envr.interp
+    only_settings = form in ('one', 'list2', 'nested', 'tuple-nested', 'deep')
+
+    def body(c):
+        s1, s2, s3 = (opaque_setting(c, 'Sa'), opaque_setting(c, 'Sb'), opaque_setting(c, 'Sc'))
+        fmt = envr.program.enum_native['AnsiFormat']
+        if form == 'one':
+            arg = s1
+        elif form == 'list2':
+            arg = PList([s1, s2])
+        elif form == 'nested':
+            arg = PList([PList([s1]), s2])
+        elif form == 'tuple-nested':
+            arg = (PList([s1, (s2,)]), s3)
+        elif form == 'deep':
+            arg = PList([PList([PList([s1, s2])]), (s3,)])
+        elif form == 'enum-bold':
+            arg = I.lift_enum(fmt.BOLD)
+        elif form == 'enum-ul-red':
+            arg = I.lift_enum(fmt.UL_RED)
+        elif form == 'name':
+            arg = 'bold'
+        elif form == 'enum-in-list':
+            arg = PList([I.lift_enum(fmt.BG_BLUE), s1])
+        else:
+            arg = ('ul_red', s1)
+        run_contract(envr, c, '_AnsiSettingPoint._scrub_ansi_settings', None, [arg, True], {},
+                     CL_F2T if only_settings else CL_F2, frame=('settings',))
+    return ContractRun(body, CL_F2T if only_settings else CL_F2, frame=('settings',))
+
+
+GROUPS.append(Group('F2', '_scrub_ansi_settings(make_unique=True) returns only newly created setting objects',
+                    ['C06', 'C08', 'C14'], 'B', ['_AnsiSettingPoint._scrub_ansi_settings', '_AnsiSettingPoint._scrub_ansi_format_string',
+                                                 'AnsiSetting.__init__', 'AnsiFormat.ansi_settings'], f2_items, f2_task,
+                    bounds='argument forms: a setting, lists/tuples nested up to depth 3, AnsiFormat members with one and two '
+                    'settings, names, mixtures; setting texts symbolic'))
